@@ -18,6 +18,7 @@
   * `strings.Compare` / `bytes.Compare` compare byte-wise lexicographically and return -1, 0 or 1.
   * a `map[string]int64` is an association list read with `mapGet` (`v, ok := m[k]`: `v` is the zero value when absent);
     string constants are the lists of their UTF-8 bytes.
+  * `strconv.Atoi` is `atoi` below (sign, ASCII decimal digits, int64 range; `err != nil` is `isNone`).
   * `binary.BigEndian.Uint32(b)` panics unless `len(b) ≥ 4` and reads the first four bytes, most significant first.
 -/
 namespace GoSem
@@ -55,6 +56,28 @@ def compareBytes : Bytes → Bytes → Int
 /-- `v, ok := m[k]` on a `map[string]int64` (keys are unique in a Go map): `some v` iff present -/
 def mapGet (m : List (Bytes × Int)) (k : Bytes) : Option Int :=
   (m.find? (fun kv => kv.1 == k)).map (·.2)
+
+/-- `strconv.Atoi` (Go `int` = int64): optional sign, at least one digit, ASCII decimal digits only (no underscores,
+    no base prefixes), value within int64; anything else is an error (`none`). -/
+def atoiDigits : List UInt8 → Nat → Option Nat
+  | [], acc => some acc
+  | b :: rest, acc =>
+    if 48 ≤ b.toNat ∧ b.toNat ≤ 57 then atoiDigits rest (acc * 10 + (b.toNat - 48)) else none
+
+def atoi (s : Bytes) : Option Int :=
+  match s with
+  | [] => none
+  | c :: rest =>
+    let neg := c == 45
+    let ds := if c == 45 || c == 43 then rest else s
+    match ds with
+    | [] => none
+    | _ :: _ =>
+      match atoiDigits ds 0 with
+      | none => none
+      | some n =>
+        let v : Int := if neg then -(n : Int) else (n : Int)
+        if -9223372036854775808 ≤ v ∧ v ≤ 9223372036854775807 then some v else none
 
 def u32mod : Nat := 4294967296
 
